@@ -1,3 +1,5 @@
+import CkbVerif.Gen.Cycles
+
 /-!
 C05 — executable model of the cycle accounting around script execution, following
 `script/src/verify.rs` (`TransactionScriptsVerifier::{verify, resumable_verify, resume_from_state,
@@ -70,6 +72,31 @@ def runFull (g : Group) (limit : Nat) : Except Err Nat :=
   let (c, r) := runSteps g.steps limit
   if r.isEmpty then (if g.code = 0 then .ok c else .error (.validation g.code))
   else .error (.exceeded limit)
+
+/-- the built-in TYPE_ID system script (`script/src/type_id.rs` `TypeIdSystemScript::verify`, called by
+`verify_script_group`, `verify_group_with_chunk` and `verify_group_with_signal` for a group whose
+script is `TYPE_ID_CODE_HASH`/`Type`) as coded: first `max_cycles < TYPE_ID_CYCLES →
+ExceededMaximumCycles(max_cycles)`, then the checks of args / cell count / creation hash (abstracted
+to the exit code they produce: `0`, `ERROR_ARGS`, `ERROR_TOO_MANY_CELLS`, `ERROR_INVALID_INPUT_HASH`)
+→ `ValidationFailure(code)`, else `Ok(TYPE_ID_CYCLES)` -/
+def typeIdVerify (maxCycles : Nat) (code : Int) : Except Err Nat :=
+  if maxCycles < Gen.Cycles.TYPE_ID_CYCLES then .error (.exceeded maxCycles)
+  else if code = 0 then .ok Gen.Cycles.TYPE_ID_CYCLES
+  else .error (.validation code)
+
+/-- `verify_group_with_chunk` for the TYPE_ID script: `Ok(c) → Completed(c, c)`,
+`ExceededMaximumCycles → Suspended(None)` (no state: the next call starts it again), other errors
+passed on. `none` = `ChunkState::suspended_type_id()` -/
+def typeIdChunk (maxCycles : Nat) (code : Int) : Except Err (Option (Nat × Nat)) :=
+  match typeIdVerify maxCycles code with
+  | .ok c => .ok (some (c, c))
+  | .error (.exceeded _) => .ok none
+  | .error e => .error e
+
+/-- the TYPE_ID system script seen as a script group: ONE atomic step of `TYPE_ID_CYCLES` followed by
+the exit code (`Props/C05.lean` `type_id_group_is_single_step`: `run`/`chunk_run` on this group are
+exactly `typeIdVerify`/`typeIdChunk`) -/
+def typeIdGroup (code : Int) : Group := ⟨[Gen.Cycles.TYPE_ID_CYCLES], code⟩
 
 /-- `wrapping_cycles_add` -/
 def cyclesAdd (a b : Nat) : Except Err Nat := if a + b < U64 then .ok (a + b) else .error .overflow
@@ -200,5 +227,21 @@ def signalVerify (limit : Nat) : List (Group × List (Option Nat)) → Nat → E
         match cyclesAdd cycles used with
         | .error e => .error e
         | .ok c => signalVerify limit rest c
+
+/-- `resume_from_state` iterated: one call per limit of the list, each from the state returned by the
+previous call, until a call completes or fails (or the limits run out: still suspended) -/
+def driveFrom (gs : List Group) : List Nat → TxState → Except Err VResult
+  | [], st => .ok (.suspended st)
+  | l :: more, st =>
+    match resumeFromState gs st l with
+    | .ok (.suspended st') => driveFrom gs more st'
+    | r => r
+
+/-- the resumable API driven over a list of per-call limits: `resumable_verify(l)`, then
+`resume_from_state(state, l')` for every further limit -/
+def drive (gs : List Group) (l : Nat) (more : List Nat) : Except Err VResult :=
+  match resumableVerify gs l with
+  | .ok (.suspended st) => driveFrom gs more st
+  | r => r
 
 end CkbVerif.Cycles
